@@ -35,7 +35,9 @@ CLAIMED = {
              "(finite, stated as such). PARAMETER LIST LENGTH = len(data-out) is decided syntactically on the IR plus a lemma about len().",
         ref="DESIGN.md §4 C03",
         note="As C01. Partial: the ATA statement is a finite flag sweep with the other arguments fixed; READ CD's 3072 bytes/sector is read "
-             "as sufficiency; the real iscsi binding's use of the lengths is assumed (modelled as iscsi_dir_len).",
+             "as sufficiency. The transfer set-up of ISCSIDevice.execute (direction, expected transfer length, Task / command arguments) and the "
+             "argument list of sgio.execute are REGENERATED and proved for all buffer lengths (C03_iscsi_direction, C03_sgio_arguments); what the "
+             "real bindings do with them is assumed. The failing-input search also builds all parameter-list commands and probes both execute()s.",
         technique="Coq proof by reflection over a regenerated constructor IR + kernel sweep + vm_compute correspondence"),
     "C17": dict(
         text="Machine-checked proof (Coq) on the regenerated constructor IR: block size 0 is refused with MissingBlocksizeException before "
@@ -122,7 +124,8 @@ CLAIMED = {
              "schedules under a settrace-controlled line-granular scheduler, input-mutation and determinism probes.",
         ref="DESIGN.md §4 C09",
         note="Partial: schedules are explored at source-line granularity (the property's); CPython's bytecode-granular preemption and the GIL "
-             "are outside the model — with an empty footprint the conclusion does not depend on the granularity. The footprint scan is a "
+             "are outside the model — with an empty footprint the conclusion does not depend on the granularity. The footprint scan (class "
+             "attributes, module globals, caller-owned containers, mutable default arguments changed in place) is a "
              "syntactic over-approximation with two stated exceptions (slice writes into library-allocated buffers; helpers handed fresh copies).",
         technique="Coq non-interference proof over regenerated constructors + regenerated footprint scan + controlled-scheduler runs"),
     "C11": dict(
@@ -163,14 +166,16 @@ CLAIMED = {
              "finds at that position (generic theorem table_reads_standard + a decidable per-field condition evaluated by vm_compute). The "
              "skeletons of the decoders (which tables, VPD page codes, page cut, list start / length bytes / base / stride) are REGENERATED and "
              "compared with the specification; for REPORT LUNS, GET LBA STATUS and PR IN READ KEYS a generic theorem shows that for every "
-             "descriptor count and content the list is returned whole, in order, nothing beyond the reported length. All 26 response kinds "
+             "descriptor count and content the list is returned whole, in order, nothing beyond the reported length; for the self-describing "
+             "descriptors (designation descriptors, READ FULL STATUS and REPORT PRIORITY descriptors, element status pages) the regenerated "
+             "walk parameters equal the standard's and a second generic theorem gives the exact walk for every count. All 26 response kinds "
              "(incl. designators, TransportIDs, READ ELEMENT STATUS pages, RTPG groups, mode pages) are generated by an independent conformant "
              "device (tools/spec_resp.py) and decoded by the real parsers on every run.",
         ref="DESIGN.md §4 C04",
         note="Trusted: Coq kernel + vm_compute; translator (validated by reflection); Spec/RespFormats.v = tools/spec_formats.py and the list "
              "rules of tools/spec_resp.py (my reading of the standards). Partial: the loop structure of the nested decoders (RTPG, READ ELEMENT "
-             "STATUS, READ FULL STATUS, device identification, MODE SENSE page walk, READ CD) is decided by the conformant-device runs, not by a "
-             "theorem; their tables are covered by the field theorem. READ CD sector layouts are not covered. Known finding: MODE SENSE decodes "
+             "STATUS element descriptors inside a page, TransportID / designator bodies, MODE SENSE page walk, READ CD) is decided by the "
+             "conformant-device runs, not by a theorem; their tables and the outer descriptor walks are covered by theorems. READ CD sector layouts are not covered. Known finding: MODE SENSE decodes "
              "only the first mode page.",
         technique="Coq proof by reflection over regenerated tables and decoder skeletons + generic list theorem + conformant-device runs"),
     "C05": dict(
